@@ -18,6 +18,16 @@ CHECKS = {
          "value lengths below 2^32-300", "6/C06"),
  "C07": ("Theorems: incr = (v+d) mod 2^64, decr = max(v-d,0), stored text = decimal of the returned number and parses back (parseU64_toDec, all n < 2^64), flags kept, creation with initial value / flags 0, no creation for expiration 0xffffffff, non-numeric -> status 6 and unchanged, what parses is characterised (digits incl. leading zeros, optional +; empty, sign, space, overflow rejected). Tie: seq suite with the decimal pool and extreme deltas; big-integer oracle.",
          "`+digits` values are unconstrained by the property (accepted by Rust's parser); the oracle accepts either outcome", "6/C07"),
+ "C09": ("Theorems (generic in the store): feed (feed c a) b = feed c (a++b) for responses, store and connection state (C09_feed_feed, from the stream-append lemma drain_append over the full two-state decoder with the oversize-skip state); hence any two segmentations of the same bytes - any number of cuts anywhere - behave identically (C09_segmentation_independent); every emitted request is taken from exactly 24+body_length bytes, also when an oversized body arrives in pieces (C09_exact_consumption, C09_exact_skip, C09_skip_discards_exactly). Tie: codec suite (real Decoder on a caller-owned BytesMut, every single cut / pairs / byte-wise) and conn suite (real server over loopback with enforced read boundaries via NETLINK_SOCK_DIAG) vs model; relational oracle: all segmentations of a stream must agree on the implementation.",
+         "chunks arrive within the idle timeout; kernel TCP and tokio are below the model", "6/C09"),
+ "C10": ("Theorems: decode loop terminates for every byte string (drain is defined by well-founded recursion, decode1_emit_measure); every parser slice is within the body (C10_parse_in_bounds), get_value_len cannot underflow; wrong magic / opcode>=0x25 / data type != 0 close the connection (C10_rejected_header); key>250, extras>20, missing key, body<key+extras, unknown opcode produce no request for implemented commands (C10_rejected_body); protocol errors, oversized and unimplemented requests leave the store untouched (C10_not_executed); data retained between reads is below max(24, limit+1) bytes whatever headers announce (C10_buffer_logic, C10_retained_bytes_bounded). Tie: codec/conn suites with malformed tails, header boundary grid, panics caught per request (overflow checks on), corpus of the repaired panics.",
+         "PARTIAL for the memory clause: BytesMut capacity (allocator growth) is measured, not modelled; panics inside tokio/DashMap are outside the model", "6/C10"),
+ "C12": ("Theorems (generic in the store): the receive loop executes events in arrival order and concatenates outputs (C12_in_order); every loud request incl. unimplemented opcodes and oversized ones gets exactly one response (C12_loud_one); quiet mutations answer iff error, quiet gets iff not a miss (C12_quiet_*); quit answered then closed, quitq closed silently (C12_quit); nothing after quit/quitq/protocol error is executed or answered (C12_nothing_after_close, C12_closed_ignores_input); a pipeline of complete frames is handed over in order (C12_pipeline_order). Tie: conn/codec suites with loud/quiet/unimplemented opcodes and quit/quitq at every position; oracle matches response opaques against the request stream.",
+         "one connection; write failures (peer not reading) end the connection by design", "6/C12"),
+ "C13": ("Theorems: an oversized request of any opcode is answered with status 3 echoing opcode/opaque and leaves the store untouched (C13_too_large_answer); oversized frame ++ rest in ANY segmentation = the 'too large' answer followed by exactly what rest alone produces (C13_skip_exact, C13_any_segmentation); from a fresh connection a request is refused for size only if body_length > limit (C13_within_limit_never_rejected, invariant PState.sizeOK). Tie: conn suite with small limits, bodies limit+1 .. 3x limit for every opcode, every split of the body between first and later reads; corpus of the repaired skip arithmetic.",
+         "limits 1 KiB - 4 KiB in the suites (list-based bytes in the model driver); larger limits are covered by the theorem's quantifier", "6/C13"),
+ "C18": ("Theorems: a strict prefix of a frame decodes to no event (C18_truncated_no_event), an invalid header to one protocol error (C18_bad_header_no_request); complete frames followed by any tail: exactly the frames' events, each once, in order, then the tail's (C18_prefix_exact, C18_cut_mid_request); EOF and protocol errors execute nothing and never change the store (C18_eof_contained, C18_protoErr_contained); the store others see is the fold of the complete requests (C18_store_is_fold_of_complete). Tie: conn suite with truncated / invalid tails and half-close at every sampled cut; dumps taken through the shared store (the observer's view).",
+         "PARTIAL: abortive resets (RST) and kernel delivery are outside the model - there the claim is 'a prefix, each at most once'", "6/C18"),
  "C11": ("Theorems (generic in the store: every outcome the storage layer can produce): every response the handler emits for any request of any opcode satisfies the layout predicate wellFormed (opcode and opaque echoed, status from the protocol table, 4 flag bytes exactly on hits, key echoed iff get-key, 8 bytes for counters, message text on errors, body length = extras+key+value) (C11_wellformed); a well-formed response occupies exactly 24+body_length bytes (C11_frame_length); magic 0x81 and data type 0. Tie: seq suite over all opcodes incl. unsupported and non-standard frames; every response of every suite is parsed by an independent parser in the harness.",
          "value lengths below 2^32-300 (body_length is a u32)", "6/C11"),
  "C19": ("Theorems (generic in the store): switching any request to the quiet opcode of its command leaves the store after handling identical and relates the responses exactly as the property says (errors identical apart from the opcode, successful quiet mutations and quiet get misses silent, quiet hits same payload) (C19_step); for command sequences of any length and any subset of positions switched, the final store is identical (C19_histories). Tie: seq suite in twin mode - every generated program is re-run with a random subset of positions toggled loud<->quiet; dumps after every request and the response relation are compared on the implementation, and both runs are compared with the model.",
